@@ -31,6 +31,21 @@ def judge(d):
     return fails
 
 
+def judge_orders(cases):
+    """C14 on forced arrival orders: the key was changed, so a notification must arrive; the LAST one says 'delete'
+    exactly when the committed history ends with an even causal length (row deleted)."""
+    bad = []
+    for c in cases:
+        final = max(c["history"])
+        if not c["notes"]:
+            bad.append(("key with history %s (arrival order %s, %s): no notification delivered" % (c["history"], c["order"], c["mode"]), c)); continue
+        last = c["notes"][-1]
+        if (last == "delete") != (final % 2 == 0):
+            bad.append(("candidates of the committed history (causal lengths) %s reached the update handle in the order %s (%s): the last notification says %r but the row %s (notifications: %s)"
+                        % (c["history"], c["order"], c["mode"], last, "no longer exists" if final % 2 == 0 else "exists", c["notes"]), c))
+    return bad
+
+
 def run(tier):
     t0 = time.time()
     violations, mismatch = [], []
@@ -69,12 +84,24 @@ def run(tier):
                 violations.append((t, rp))
         if len(cov["samples"]) < 2:
             cov["samples"].append({"notifications": d["notifications"][:12], "changed": d["changed"], "final_present": d["final_present"]})
-    cov["traces_validated_against_impl"] = len([1 for r in res if r[1] is not None])
+    # every arrival order of the candidates of short per-key histories (the Recv(i) nondeterminism of Updates.tla)
+    # on the real update handle: match_changes -> batch_candidates -> listener
+    oo = os.path.join(vlib.scratch(), "updorder.ndjson")
+    p = vlib.run_vh(["upd-order", oo], timeout=600)
+    if p.returncode != 0:
+        raise vlib.ToolError("vh upd-order failed: %s" % p.stderr[-800:])
+    cases = [json.loads(l) for l in open(oo)]
+    bad_orders = judge_orders(cases)
+    for (t, c) in bad_orders[:3]:
+        violations.append((t, vlib.write_replay(PID, "order", c)))
+    cov["forced_arrival_orders"] = {"cases": len(cases), "histories": sorted({tuple(c["history"]) for c in cases}), "notifications": sum(len(c["notes"]) for c in cases), "failed": len(bad_orders)}
+    nn += sum(len(c["notes"]) for c in cases)
+    cov["traces_validated_against_impl"] = len([1 for r in res if r[1] is not None]) + len(cases)
     cov["notifications_judged"] = nn
     cov["evaluations"] = nn
     cov["distinct_nontrivial"] = cov["traces_validated_against_impl"]
     cov["exhaustive"] = False
-    cov["rule"] = "model: all histories of <= 4-5 writes on 2-3 keys with causal lengths <= 3-4 and any arrival order of <= 2-3 in-flight candidates; binding: seeded histories (local + remote, shuffled / duplicated delivery) with the real feed judged"
+    cov["rule"] = "model: all histories of <= 4-5 writes on 2-3 keys with causal lengths <= 3-4 and any arrival order of <= 2-3 in-flight candidates; binding: seeded histories (local + remote, shuffled / duplicated delivery) with the real feed judged; plus every arrival order of the candidates of 5 per-key histories (2-4 transactions, insert / delete / re-insert / update) on the real update handle, spaced and in one batching window"
     vlib.write_evidence(PID, tier, LEVEL, cov, time.time() - t0, violations=len(violations), assumptions=[
         "the cl_cache is larger than the number of distinct keys in flight: with eviction (2000 -> 1000 entries) plus reordering TLC finds a stale notification after a newer one (documented in DESIGN.md, not reproducible on the real code without > 2000 hot keys)",
         "Monotone cannot be observed on the real feed (notifications carry no causal length); it is checked on the model and through Fate on the real runs"])
@@ -83,5 +110,7 @@ def run(tier):
 
 def replay(path):
     d = json.load(open(path))
+    if "history" in d:
+        return {"violations": [(t, path) for (t, _) in judge_orders([d])]}
     fl = judge(d)
     return {"violations": [(t, path) for t in fl[:2]]}
